@@ -25,8 +25,10 @@ def main():
             os.path.dirname(os.path.dirname(os.path.abspath(__file__))), 'replays', 'tmp')) else None)
     n = 0
     failures = []
-    values = [None, 1, 1.5, 'x', [1, [2.0, 'é']], {'k': {'n': 2 ** 70}}, True, '\U0001f600 a b']
-    paths = ['/p/a b.txt', '/p/.dot', '/p/ü/o', '/q/x', '/q/y', '/q/z w', '/r/1', '/r/2']
+    values = [None, 1, 1.5, 'x', [1, [2.0, 'é']], {'k': {'n': 2 ** 70}}, True, '\U0001f600 a b',
+              0, 0.0, False, '', [], {}, '\ud83d lone surrogate', -0.0, 1e300]
+    paths = ['/p/a b.txt', '/p/.dot', '/p/ü/o', '/q/x', '/q/caf\udce9 latin-1', '/q/z w', '/r/1',
+             '/r/2']
 
     def leaf_variants(kind, idx):
         for raised, setup_failed in ((False, False), (True, False), (True, True)):
@@ -71,6 +73,25 @@ def main():
     def count(shape):
         return 1 + sum(count(c) for c in shape)
 
+    # every value of the alphabet at every value-carrying position of a record, every path name
+    for vi, v in enumerate(values):
+        for pi in (vi % len(paths), (vi + 3) % len(paths)):
+            n += 1
+            try:
+                json.dumps(v)
+            except (TypeError, ValueError):
+                continue
+            bf = BuildFileOperation(paths[pi], FileComparison.HASH, 'fn', [v], {'kw': v},
+                                    [SimpleOperation('list_dir', [paths[pi]], [v], None, True)],
+                                    v, {'size': vi, 'timeNs': 1}, False, False, True)
+            sb = SubbuildOperation('sub', [v, [v]], {'a': {'b': v}}, [bf], v, False, False, True)
+            bad = check_forest(Cache, sb, tmp, BuildFileOperation, SubbuildOperation,
+                               SimpleOperation)
+            if bad:
+                failures.append({'value': repr(v), 'path': paths[pi], 'problem': bad})
+                break
+        if failures:
+            break
     seen_shapes = set()
     for total in range(1, MAXOPS + 1):
         for shape in shapes(total, 3):
@@ -209,8 +230,15 @@ def check_forest(Cache, rootop, tmp, BFO, SBO, SO):
     # C16: write / read round trip
     c.add_created_dirs(['/p', '/p/ü'])
     fn = os.path.join(tmp, 'cache.gz')
-    c.write(fn)
-    r = Cache.read_immutable(fn)
+    try:
+        c.write(fn)
+    except Exception as e:
+        return 'Cache.write raised %s on recorded JSON data: %s' % (type(e).__name__, str(e)[:120])
+    try:
+        r = Cache.read_immutable(fn)
+    except Exception as e:
+        return 'Cache.read_immutable raised %s on a file Cache.write just wrote: %s' % (
+            type(e).__name__, str(e)[:120])
     if sorted(r.created_dirs()) != ['/p', '/p/ü'] or r.build_name() != 'n':
         return 'header fields not preserved'
     for name, ver in VERSIONS.items():
